@@ -188,7 +188,35 @@ impl Prop for C13 {
         let mut reqs: Vec<Req> = vec![];
         for _ in 0..n {
             if !reqs.is_empty() && rng.chance(2, 5) {
-                let r = rng.pick(&reqs).clone();
+                let mut r = rng.pick(&reqs).clone();
+                // 1 repeat in 3 is a near-copy: same fields, but finality / the plain entry point / one mutability flag differs - a different
+                // type that must not be mistaken for the earlier one
+                if rng.chance(1, 3) {
+                    match &mut r {
+                        Req::Func { fin, plain, .. } => {
+                            if *plain {
+                                *plain = false;
+                                *fin = false;
+                            } else {
+                                *fin = !*fin;
+                            }
+                        }
+                        Req::Array { m, plain, fin, .. } => {
+                            *m = !*m;
+                            if *plain && rng.bool() {
+                                *plain = false;
+                                *fin = true;
+                            }
+                        }
+                        Req::Struct { m, .. } => {
+                            if m.is_empty() {
+                                continue;
+                            }
+                            let k = rng.below(m.len());
+                            m[k] = !m[k];
+                        }
+                    }
+                }
                 reqs.push(r);
                 continue;
             }
